@@ -646,6 +646,19 @@ let handle (fields : string list) : string * string =
     let ok = Model.wired_policy false true (to_b "roundrobin") [entry] t [] (bytes_of_hex asked) in
     let m = Printf.sprintf "channel=%d" (int_of_n (if ok then Model.e_PROXY_INTERNALERROR else Model.e_PROXY_RAP_ACCESSDENIED)) in
     (m, if m = impl then "ok" else "fail:tunnel-user-is-not-the-confirmed-name")
+  | "exact" :: _what :: impl :: [] ->
+    (* C06 at volume (C06_client_to_host / C06_host_to_client): what arrived is what was sent; streams of many
+       MiB are compared by the harness itself *)
+    ("exact", if impl = "exact" then "ok" else "fail:" ^ impl)
+  | "inbeforeout" :: impl :: [] ->
+    (* Model/System.v: inbound of B with no outbound of B is refused; then outbound and inbound of A pair up *)
+    let c = parse_cfg "10101" "0000000" "0" in
+    let a = n_of_int 1 and b = n_of_int 2 in
+    let tr = List.map snd (Model.grun c [] [GOpenIn b; GOpenOut a; GOpenIn a]) in
+    let m = (match tr with
+        | [GRefused; GAccepted; GAccepted] -> "b-refused a-answered"
+        | _ -> "other") in
+    (m, if m = impl then "ok" else "fail:inbound-request-attached-to-another-connection-or-delayed")
   | "pairing" :: same :: impl :: [] ->
     let c = parse_cfg "10101" "0000000" "0" in
     let one = n_of_int 1 and two = n_of_int 2 in
